@@ -18,14 +18,14 @@ def _norm(order):
     return int(value) if value == int(value) else value
 
 
-def _check_base(text, level, appearance):
+def _check_base(text, level, appearance, zero_edges=()):
     graph = read_cgsmiles(text)
     names = [graph.nodes[n].get("fragname") for n in sorted(graph.nodes)]
     want = [level["names"][x] for x in appearance]
     if names != want:
         return "base names %r != %r" % (names, want)
     pos = {x: k for k, x in enumerate(appearance)}
-    want_edges = sorted((min(pos[a], pos[b]), max(pos[a], pos[b]), _norm(o)) for a, b, o in level["edges"])
+    want_edges = sorted((min(pos[a], pos[b]), max(pos[a], pos[b]), _norm(o)) for a, b, o in list(level["edges"]) + list(zero_edges))
     got_edges = sorted((min(u, v), max(u, v), _norm(o)) for u, v, o in graph.edges(data="order"))
     if want_edges != got_edges:
         return "base edges %r != %r" % (got_edges, want_edges)
@@ -38,11 +38,11 @@ def admit(item):
         return None
     try:
         levels = item["levels"]
-        reason = _check_base(item["base"], levels[0], item["base_appearance"])
+        reason = _check_base(item["base"], levels[0], item["base_appearance"], item.get("base_zero_edges", ()))
         if reason:
             return reason
         flat_base = item["flat"].split(".{")[0]
-        reason = _check_base(flat_base, levels[-1], item["flat_appearance"])
+        reason = _check_base(flat_base, levels[-1], item["flat_appearance"], item.get("flat_zero_edges", ()))
         if reason:
             return "flat " + reason
         # group definitions
